@@ -233,11 +233,16 @@ impl Scenario for SignNode {
                     // raw burst
                     let n = 1 + cx.draw(40);
                     let aware_num = *cx.pick(&[3u64, 4, 2, 0]);
+                    let mut prev: Option<Message<'static>> = None;
                     for _ in 0..n {
                         if cx.failed() || world.lock().dead {
                             break;
                         }
-                        let m = if cx.chance(aware_num, 4) {
+                        let m = if prev.is_some() && cx.chance(1, 12) {
+                            // the same message twice in a row
+                            cx.probe("message_repeated_back_to_back");
+                            prev.clone().unwrap()
+                        } else if cx.chance(aware_num, 4) {
                             let w = world.lock();
                             let i = cx.draw(w.models.len() as u64) as usize;
                             aware_message(cx, &w.models[i])
@@ -246,6 +251,7 @@ impl Scenario for SignNode {
                             gens::raw_message(cx, &addrs)
                         };
                         deliver_probed(cx, &world, &m);
+                        prev = Some(m);
                     }
                 }
                 _ => controller_segment(cx, &world, &MSG_FAULTS),
